@@ -156,6 +156,56 @@ func c53(c *Ctx) {
 		for _, r := range returnsOf(rf) {
 			c.Unreachable(r, "ref-of-freed-buffer-panics", CmpInt(addOn(ParamV("b"), 1), token.LEQ, 1))
 		}
+		for _, r := range returnsOf(rf) {
+			if r.Block() != rf.Recover {
+				c.EnteredOnlyWhen(r.Block(), "ref-succeeds-only-above-one", CmpInt(addOn(ParamV("b"), 1), token.GTR, 1))
+			}
+		}
+		// Slice: the receiver itself is handed out only for the full range and only after taking a reference on it
+		sf := c.fn(memp, "buffer.Slice")
+		nSelf := 0
+		for _, r := range returnsOf(sf) {
+			mi, ok := r.Results[0].(*ssa.MakeInterface)
+			if !ok || !ParamV("b")(mi.X) {
+				continue
+			}
+			nSelf++
+			c.MustFact(r, "slice:self-only-for-the-full-range", Cmp(LenOf(AnyV), token.EQL, LenOf(FieldLoad(fData))))
+			okRef := false
+			for _, ci := range callsIn(sf, Callee(memp, "buffer.Ref")) {
+				if ParamV("b")(ci.Common().Args[0]) && instrDominates(ci, r) {
+					okRef = true
+				}
+			}
+			c.Expect(okRef, r, sf, "slice:self-returned-with-a-new-reference", "Slice returns the receiver without taking a reference (the caller's Free would release the original holder's reference)")
+		}
+		c.Expect(nSelf <= 1, nil, sf, "slice:one-self-arm", "more than one arm returns the receiver")
+		// read: the buffer is released exactly when it was consumed completely, and only then is no remainder returned
+		rd := c.fn(memp, "buffer.read")
+		whole := Cmp(AnyV, token.EQL, LenOf(FieldLoad(fData)))
+		nNil := 0
+		for _, r := range returnsOf(rd) {
+			if r.Block() == rd.Recover {
+				continue
+			}
+			if ConstNil(r.Results[1]) {
+				nNil++
+				c.MustFact(r, "read:no-remainder-only-when-fully-consumed", whole)
+				okFree := false
+				for _, ci := range callsIn(rd, Callee(memp, "buffer.Free")) {
+					if ParamV("b")(ci.Common().Args[0]) && instrDominates(ci, r) {
+						okFree = true
+					}
+				}
+				c.Expect(okFree, r, rd, "read:consumed-buffer-freed", "a fully consumed buffer is dropped without being freed (its memory never returns to the pool)")
+			} else {
+				c.Unreachable(r, "read:remainder-not-returned-after-free", whole)
+			}
+		}
+		c.Expect(nNil == 1, nil, rd, "read:one-consumed-arm", "expected one fully-consumed arm in buffer.read")
+		for _, ci := range callsIn(rd, Callee(memp, "buffer.Free")) {
+			c.MustFact(ci, "read:freed-only-when-fully-consumed", whole)
+		}
 	})
 	c.Ob("reader-accounting", "R12", "Reader.Read/Discard: remaining length and in-buffer index move by the same amount; the first buffer is freed exactly where it is dropped from the list and the index reset", 6, func() {
 		fLen := c.field(memp, "Reader", "len")
@@ -201,6 +251,20 @@ func c53(c *Ctx) {
 			}
 			c.Expect(okDrop && okReset, fr, f, fn+":freed-buffer-dropped", "the freed buffer stays in the reader's list or the index is not reset")
 			c.MustFactAny(fr, fn+":freed-only-when-exhausted", Cmp(FieldLoad(fIdx), token.EQL, AnyV), Cmp(FieldLoad(fIdx), token.GEQ, AnyV))
+			if fn == "Reader.freeFirstBufferIfEmpty" {
+				c.MustFact(fr, fn+":first-buffer-exists", CmpInt(LenOf(FieldLoad(fRD)), token.NEQ, 0))
+			}
+		}
+		// Read: end of data is reported only when nothing remains; the first buffer is accessed only while data remains and room is left
+		rr := c.fn(memp, "Reader.Read")
+		for _, r := range returnsOf(rr) {
+			if r.Block() != rr.Recover && !ConstNil(r.Results[1]) {
+				c.MustFact(r, "Read:EOF-only-when-empty", CmpInt(FieldLoad(fLen), token.EQL, 0))
+			}
+		}
+		for _, ci := range callsIn(rr, Callee(memp, "Buffer.ReadOnlyData")) {
+			c.MustFact(ci, "Read:first-buffer-read-only-while-data-remains", CmpInt(FieldLoad(fLen), token.NEQ, 0))
+			c.MustFact(ci, "Read:copies-only-while-room-is-left", CmpInt(LenOf(AnyV), token.NEQ, 0))
 		}
 	})
 	c.Ob("zeroing", "R2", "pooled slices are cleared over their whole capacity before reuse on the shouldZero arm; clean constructors select zeroing, Dirty ones do not", 8, func() {
